@@ -85,9 +85,9 @@ pub fn run(reg: &dyn Registry, ctx: &Ctx) -> Outcome {
             ctx.machinery(&format!("{}: not all 256 indirection indices were exercised", name));
         }
         // long runs
-        let blocks = if thorough { 4000 } else { 400 };
+        let blocks = if thorough { 1 << 18 } else { 1 << 14 };
         let mut long_seeds = vec![alphabet::zero(len), alphabet::ones(len)];
-        long_seeds.extend(alphabet::w1(len).into_iter().step_by(8));
+        long_seeds.extend(alphabet::w1(len).into_iter().step_by(if thorough { 8 } else { 32 }));
         long_seeds.extend(chain_seeds(ty, ctx.seed ^ 0x33, 30));
         let res: Vec<_> = long_seeds
             .par_iter()
@@ -164,6 +164,32 @@ pub fn run(reg: &dyn Registry, ctx: &Ctx) -> Outcome {
                 }
             }
         }
+        // rare reachable events found on the reference model: lock-step through each of them
+        {
+            let kind = if is64 { crate::rare::Kind::Isaac64 } else { crate::rare::Kind::Isaac };
+            let (evs, words) = crate::rare::events_for(kind, ctx.seed, thorough);
+            ctx.add("rare_event_search_words", words);
+            ctx.add("rare_events_visited", evs.len() as u64);
+            let res: Vec<_> = evs
+                .par_iter()
+                .map(|e| {
+                    let n = e.word_index as usize + 600;
+                    let mk = |w: String, pos: usize| (w, json!({"kind":"stream","type":name,"seed":hex(&e.seed),"position":pos,"words":n}));
+                    let r = (|| {
+                        let mut g = from_seed_guarded(ty, &e.seed).map_err(|x| mk(x, 0))?;
+                        let mut m = if is64 { Model::I64(Isaac64::from_seed_bytes(&e.seed)) } else { Model::I32(Isaac::from_seed_bytes(&e.seed)) };
+                        compare(&mut g, &mut m, is64, n, &mk)
+                    })();
+                    (r, e)
+                })
+                .collect();
+            for (r, e) in res {
+                match r {
+                    Ok(n) => ctx.add("words_compared", n),
+                    Err((w, replay)) => ctx.violation(&format!("C03:{}:stream-event", name), &format!("{}: at a stream position with {} ({}): {}", name, e.what, crate::rare::describe(e), w), replay),
+                }
+            }
+        }
         // seed_from_u64(0) == the reference generator used unseeded (randinit(FALSE))
         {
             let mk = |w: String, pos: usize| (w, json!({"kind":"stream-u64","type":name,"x":0,"position":pos,"words":1024}));
@@ -192,7 +218,7 @@ pub fn run(reg: &dyn Registry, ctx: &Ctx) -> Outcome {
             traces: "states",
             evaluations: "states",
             distinct: "seeds",
-            rule: "per generator: seeds = Z, O, every single bit and every pair of seed bits, walking zeros, byte probes, dense chained seeds (distinct by construction); each compared with the reference for all 768 words of the first 3 blocks; a subset for 400 (quick) / 4000 (thorough) blocks; seed_from_u64(0) against the unseeded reference for 4 blocks; every triple of seed bits (W3) is compared for the first block + 8 words".into(),
+            rule: "per generator: seeds = Z, O, every single bit and every pair of seed bits, walking zeros, byte probes, dense chained seeds (distinct by construction); each compared with the reference for all 768 words of the first 3 blocks; a subset for 2^14 (quick) / 2^18 (thorough) blocks; seed_from_u64(0) against the unseeded reference for 4 blocks; every triple of seed bits (W3) is compared for the first block + 8 words".into(),
         },
     }
 }
